@@ -61,11 +61,18 @@ def public_job(job):
     from numbers_parser import Document
     from numbers_parser.constants import FormatType
     from numbers_parser.generated import TSKArchives_pb2 as TSK
-    doc = Document(num_rows=max(1, len(dates), len(durs)), num_cols=2, num_header_rows=0, num_header_cols=0)
-    tb = doc.sheets[0].tables[0]
-    model, tid = doc._model, tb._table_id
+    nrows = max(1, len(dates), len(durs))
+    doc = Document(num_rows=nrows, num_cols=2, num_header_rows=0, num_header_cols=0)
+    tables = [doc.sheets[0].tables[0]]
+    if idx % 2:
+        # several tables in one document (one added to the sheet, one on an added sheet): their formats are independent
+        tables.append(doc.sheets[0].add_table("Second", num_rows=nrows, num_cols=2, num_header_rows=0, num_header_cols=0))
+        doc.add_sheet("Other", "Third", nrows, 2)
+        tables.append(doc.sheets[1].tables[0])
+    model = doc._model
     ok_dates = []
     for i, (fmt, dt, custom) in enumerate(dates):
+        tb = tables[i % len(tables)]
         tb.write(i, 0, dt)
         try:
             if custom:
@@ -77,16 +84,19 @@ def public_job(job):
         except Exception as e:  # noqa: BLE001
             ok_dates.append((i, fmt, dt, "REFUSED:%s" % type(e).__name__))
     for i, (td, style, largest, smallest, auto) in enumerate(durs):
+        tb = tables[i % len(tables)]
         tb.write(i, 1, td)
         fa = TSK.FormatStructArchive(format_type=FormatType.DURATION, duration_style=style, duration_unit_largest=largest, duration_unit_smallest=smallest,
                                      use_automatic_duration_units=auto)
-        tb.rows()[i][1]._duration_format_id = model._table_formats.lookup_key(tid, fa)
+        tb.rows()[i][1]._duration_format_id = model._table_formats.lookup_key(tb._table_id, fa)
     path = os.path.join(scratch, "c14-%d-%d.numbers" % (os.getpid(), idx))
     events = []
     try:
         doc.save(path)
-        t2 = Document(path).sheets[0].tables[0]
+        d2 = Document(path)
+        rt = [d2.sheets[0].tables[0]] + ([d2.sheets[0].tables[1], d2.sheets[1].tables[0]] if len(tables) == 3 else [])
         for (i, fmt, dt, custom) in ok_dates:
+            t2 = rt[i % len(rt)]
             if isinstance(custom, str):
                 continue
             try:
@@ -96,6 +106,7 @@ def public_job(job):
                 out = None
             events.append(date_event(fmt, dt, out, "custom" if custom else "public"))
         for i, (td, style, largest, smallest, auto) in enumerate(durs):
+            t2 = rt[i % len(rt)]
             try:
                 out = t2.cell(i, 1).formatted_value
             except Exception as e:  # noqa: BLE001
